@@ -743,6 +743,7 @@ fn run_c10(t: &mut Tape, tier: Tier) -> RunOut {
         out.probe("malformed_query_direct");
         match lib_canonical_query(&q) {
             Ok(Err(k)) if k.contains("MalformedQueryString") => {}
+            Err(p) => out.violate("C08", "no-panic", format!("query canonicalisation of {:?} panicked: {}", q, p)),
             other => out.violate("C10", "malformed-escape-is-malformed-query-400", format!("query {:?}: {:?}", q, other)),
         }
     }
